@@ -272,9 +272,11 @@ def remove_images(expr, var, dt, m1=0, m2=0):
 
         if a == 0:
             return expr
-        if b / a != -sumsym / dt:
+        # Allow a frequency shift, for example, DiracDelta(f - f0 - m / dt)
+        bm = b.coeff(sumsym, 1) * sumsym
+        if bm / a != -sumsym / dt:
             return expr
-        return a * var
+        return a * var + (b - bm).expand()
 
     expr1 = expr1.replace(query, value)
 
